@@ -332,6 +332,7 @@ QUICK = [("p256", 65, 64, 32), ("p256", 65, 64, 20), ("secp256k1", 65, 64, 31), 
          ("secp256k1", 65, 64, 32), ("secp256k1", 33, 66, 31), ("secp256k1", 65, 65, 32)]
 THOROUGH = QUICK + [("p256", 65, s, h) for s in (2, 60, 68, 70) for h in (1, 31, 33, 64)] + \
     [("secp256k1", 65, s, h) for s in (0, 62, 64, 68) for h in (0, 20, 32, 40)]
+THOROUGH = list(dict.fromkeys(THOROUGH))
 
 
 def run(tier, only=None):
